@@ -186,7 +186,25 @@ def _run_case(case):
             out.label("cut_inside")
         if not cuts:
             out.label("single_chunk")
-        res = check_stream(Rig(), frames, cuts, 0)
+        rig0 = Rig()
+        if case.get("events_between_chunks"):
+            # things that happen in the stack while the connection stays up must not touch the stream: a redundant connect
+            # request (the network layer ignores it while connected), the login's events, an event nobody knows
+            from yowsup.layers import YowLayerEvent
+            from yowsup.layers.network import YowNetworkLayer
+            names = [YowNetworkLayer.EVENT_STATE_CONNECT, "org.openwhatsapp.yowsup.event.auth.authed", "org.example.verif.unknown"]
+            feed0 = rig0.feed
+            counter = [0]
+
+            def feed_with_events(chunk, _f=feed0):
+                _f(chunk)
+                counter[0] += 1
+                for when, which in case["events_between_chunks"]:
+                    if when == counter[0]:
+                        rig0.top.broadcastEvent(YowLayerEvent(names[which % len(names)]))
+            rig0.feed = feed_with_events
+            out.label("events_between_chunks")
+        res = check_stream(rig0, frames, cuts, 0)
         if res is not None:
             out.fail("incoming", "incoming:" + res[0], res[1])
         elif case.get("second_connection"):
@@ -310,7 +328,8 @@ def stream_strategy(tier):
         if draw(st.integers(0, 9)) == 0 and L <= 400:
             cuts = list(range(1, L))  # byte by byte
         fills = draw(st.lists(st.integers(0, 3), min_size=1, max_size=3))
-        return {"sub": "stream", "lens": ls, "fills": fills, "cuts": sorted(set(cuts)), "second_connection": draw(st.integers(0, 3)) == 0}
+        return {"sub": "stream", "lens": ls, "fills": fills, "cuts": sorted(set(cuts)), "second_connection": draw(st.integers(0, 3)) == 0,
+                "events_between_chunks": draw(st.one_of(st.just([]), st.lists(st.tuples(st.integers(1, 8), st.integers(0, 2)).map(list), min_size=1, max_size=3)))}
     return build()
 
 
